@@ -109,7 +109,16 @@ bool ops_image(Ctx& c, const json& s, int idx, bool& handled) {
 					if (b.imageHeader.bitCount != 8 || b.imageHeader.width != 32 || b.imageHeader.height % 32 != 0) { Proto::mismatch(fsite, "constraint-violating-tileset-loaded", where("")); return false; } } } }
 		else { auto art = std::make_shared<ArtFile>(); Stream::MemoryReader r(img.data(), img.size()); at("load");
 			try { *art = ArtFile::Read(r); } catch (const std::exception&) { err = true; }
-			if (!err) { tryOp("Write", [&] { Stream::DynamicMemoryWriter w; art->Write(w); });
+			if (!err) { at("postcondition");      // C10: whatever the reader accepts satisfies the cross-field rules (over the naturals) and round-trips byte-stably
+				std::string why;
+				for (std::size_t i = 0; i < art->imageMetas.size() && why.empty(); ++i) { const auto& im = art->imageMetas[i];
+					if (im.paletteIndex >= art->palettes.size()) why = "image " + std::to_string(i) + " names palette " + std::to_string(im.paletteIndex) + " of " + std::to_string(art->palettes.size());
+					else if ((unsigned long long)im.scanLineByteWidth != (((unsigned long long)im.width + 3) / 4) * 4) why = "image " + std::to_string(i) + ": scan line " + std::to_string(im.scanLineByteWidth) + " for width " + std::to_string(im.width); }
+				if (why.empty()) { std::vector<unsigned char> w1, w2; bool wfail = throws([&] { w1 = art_bytes(*art); });
+					if (wfail) why = "the writer refuses what the reader returned";
+					else if (throws([&] { ArtFile a2 = art_from(w1); w2 = art_bytes(a2); }) || w2 != w1) why = "the written bytes do not read back to the same bytes"; }
+				if (!why.empty()) Proto::mismatch(fsite + "/postcondition", "accepted-invalid-prt", where(why));
+				tryOp("Write", [&] { Stream::DynamicMemoryWriter w; art->Write(w); });
 				for (auto& pf : s["pixelFiles"]) { std::size_t len = pf; std::string bmp = ROOT + "/pix" + std::to_string(len) + ".bmp"; { std::vector<unsigned char> px(len); for (std::size_t j = 0; j < len; ++j) px[j] = (unsigned char)(j * 13 + 1); Scen::spit(bmp, px); }
 					tryOp("SpriteLoader", [&] { SpriteLoader loader(bmp, art); if (loader.ImageCount() != art->imageMetas.size() || loader.AnimationCount() != art->animations.size()) Proto::mismatch(fsite + "/SpriteLoader", "count", where("ImageCount / AnimationCount"));
 						for (std::size_t i = 0; i <= art->imageMetas.size() + 1; ++i) tryOp("ExtractImage", [&] { loader.ExtractImage(i, ROOT + "/sprite.bmp"); });
